@@ -412,6 +412,12 @@ func c14Method(c *Ctx, ct *Cont, fd *ast.FuncDecl, m *types.Func, fam, name stri
 		if s.Kind == "call" && s.Call != nil && s.Call.Fun != nil && (s.Call.Fun.Name() == ctorName(ct.IsList) || s.Call.Fun.Name() == "Init") {
 			continue
 		}
+		if s.Kind == "store" && result != nil {
+			// the fresh result registers itself by hand: result.ptr = result (what Init does)
+			if sel, ok := s.LHS.(TSel); ok && sel.Field == ct.Ptr && sameTerm(eraseEpochs(sel.X), eraseEpochs(result)) && sameTerm(eraseEpochs(s.RHS), eraseEpochs(result)) {
+				continue
+			}
+		}
 		r1("action").Fail("effect outside the loop: %s", c.stepStr(s))
 		return
 	}
